@@ -45,6 +45,42 @@ type Finding struct {
 	Example   string `json:"example,omitempty"`
 }
 
+// parseFinding parses one line of known_findings.txt:
+//
+//	known: property=C09 signature=<sig> -- <what fails>
+//	fixed: property=C09 <commit> <what failed> [signature=<sig>]
+func parseFinding(line string) (Finding, error) {
+	var fd Finding
+	switch {
+	case strings.HasPrefix(line, "known: property="):
+		fd.Status = "known"
+		rest := strings.TrimPrefix(line, "known: property=")
+		i := strings.Index(rest, " signature=")
+		j := strings.Index(rest, " -- ")
+		if i < 0 || j < i {
+			return fd, fmt.Errorf("want 'known: property=<id> signature=<sig> -- <what>'")
+		}
+		fd.Property = rest[:i]
+		fd.Signature = rest[i+len(" signature=") : j]
+		fd.What = rest[j+4:]
+	case strings.HasPrefix(line, "fixed: property="):
+		fd.Status = "fixed"
+		rest := strings.TrimPrefix(line, "fixed: property=")
+		parts := strings.SplitN(rest, " ", 3)
+		if len(parts) < 3 {
+			return fd, fmt.Errorf("want 'fixed: property=<id> <commit> <what> [signature=<sig>]'")
+		}
+		fd.Property, fd.Commit, fd.What = parts[0], parts[1], parts[2]
+		if i := strings.LastIndex(fd.What, "[signature="); i >= 0 && strings.HasSuffix(fd.What, "]") {
+			fd.Signature = fd.What[i+len("[signature=") : len(fd.What)-1]
+			fd.What = strings.TrimSpace(fd.What[:i])
+		}
+	default:
+		return fd, fmt.Errorf("line must start with 'known: property=' or 'fixed: property='")
+	}
+	return fd, nil
+}
+
 // Violation as recorded in a replay artefact.
 type Violation struct {
 	Property  string      `json:"property"`
@@ -97,7 +133,7 @@ func New(id, tier string) *Ctx {
 	if s := os.Getenv("VERIF_SEED"); s != "" {
 		c.Seed, _ = strconv.ParseInt(s, 10, 64)
 	}
-	f, err := os.Open(filepath.Join(Root(), "known_findings.jsonl"))
+	f, err := os.Open(filepath.Join(Root(), "known_findings.txt"))
 	if err == nil {
 		defer f.Close()
 		sc := bufio.NewScanner(f)
@@ -107,9 +143,9 @@ func New(id, tier string) *Ctx {
 			if line == "" || strings.HasPrefix(line, "#") {
 				continue
 			}
-			var fd Finding
-			if err := json.Unmarshal([]byte(line), &fd); err != nil {
-				fmt.Fprintf(os.Stderr, "harness: bad known_findings line: %v\n", err)
+			fd, err := parseFinding(line)
+			if err != nil {
+				fmt.Fprintf(os.Stderr, "harness: bad known_findings line %q: %v\n", line, err)
 				os.Exit(2)
 			}
 			if fd.Property != id {
